@@ -667,6 +667,7 @@ package control
 //@   modifies mapof(b.referencedOutbounds)
 //@   ensures outbound == consts.OutboundLogicalOr.String() ==> result1 == nil && result0 == consts.OutboundLogicalOr
 //@   ensures outbound == consts.OutboundLogicalAnd.String() && outbound != consts.OutboundLogicalOr.String() ==> result1 == nil && result0 == consts.OutboundLogicalAnd
+//@   ensures outbound == consts.OutboundMustRules.String() && outbound != consts.OutboundLogicalOr.String() && outbound != consts.OutboundLogicalAnd.String() ==> result1 == nil && result0 == consts.OutboundMustRules
 //@   ensures result1 == nil && outbound != consts.OutboundLogicalOr.String() && outbound != consts.OutboundLogicalAnd.String() && outbound != consts.OutboundMustRules.String() ==> has(b.outboundName2Id, outbound) && result0 == b.outboundName2Id[outbound]
 
 // C08 lookup decision table (returns in source order): 1 unknown key; 2/3 fresh answer (packed or filled in
